@@ -17,7 +17,8 @@ import (
 func init() {
 	register(&RuleSet{
 		ID: "C02",
-		Explanation: "R1 verify.SNP (ESP with flags ExpectedLaunchVMSAs≠0, Measurement≠nil): a possibly-nil return needs the true edge of a bytes.Equal between the options' Measurement and an endorsed value — for a named count the endorsed value must come from the map lookup keyed by that count (or the SVSM field) — unless nothing was requested; a failed comma-ok / empty-SVSM presence test never reaches a nil return. " +
+		Explanation: "R9 the caller's endorsement is the reference: in a validator whose options can name the endorsement (field Endorsement) and that consults it, another endorsement is produced (extracted, unmarshalled, verified from bytes) only where that field was found nil. " +
+			"R1 verify.SNP (ESP with flags ExpectedLaunchVMSAs≠0, Measurement≠nil): a possibly-nil return needs the true edge of a bytes.Equal between the options' Measurement and an endorsed value — for a named count the endorsed value must come from the map lookup keyed by that count (or the SVSM field) — unless nothing was requested; a failed comma-ok / empty-SVSM presence test never reaches a nil return. " +
 			"R2 validator closure: the measurement handed on is the report's; the verification call is reached only behind the equal edge of len(m) vs abi.MeasurementSize. " +
 			"R3 core: nil return only on the len(ExpectedUefiSha384)==0 edge or after bytes.Equal(ExpectedUefiSha384, golden.Digest) was true. " +
 			"R4 SevPolicy: Policy.Measurement is stored only from the comma-ok-true lookup keyed by LaunchVmsas; LaunchVmsas==0 without AllowUnspecifiedVmsas cannot return nil; a named count returns nil only after the measurement was stored. " +
@@ -50,6 +51,7 @@ func isBytesEqual(in ssa.Instruction) (*ssa.Call, bool) {
 }
 
 func runC02(c *Ctx) {
+	defer c02PinnedEndorsement(c)
 	// R7 = C01.R4: the closure that compares the measurement only decides anything if go-sev-guest must call it.
 	c.borrow("R7/C01.", runC01, func(rule, _ string) bool { return rule == "R4" })
 	// R8 = C01.R1/R3: "the measurement is listed by the endorsement" only means something if the endorsement that
@@ -789,4 +791,155 @@ func stripAddConst(v ssa.Value) ssa.Value {
 		}
 	}
 	return v
+}
+
+// c02PinnedEndorsement is R9: where a validator's options can name the endorsement to check against (a field
+// `Endorsement *VMLaunchEndorsement`) and the validator consults it, the caller's endorsement is the reference:
+// another endorsement is produced (extracted from the attestation, unmarshalled from fetched bytes, verified from a
+// serialized form) only where that field was found nil. The attestation's certificate table comes from the host; an
+// endorsement found there must not displace the one the caller pinned.
+func c02PinnedEndorsement(c *Ctx) {
+	epbPkg := repoPath("proto/endorsement")
+	verifyEnd := c.P.Func("verify", "Endorsement")
+	isEndPtr := func(t types.Type) bool {
+		p, ok := t.Underlying().(*types.Pointer)
+		return ok && namedIs(p.Elem(), epbPkg, "VMLaunchEndorsement")
+	}
+	hasPinField := func(t types.Type) bool {
+		p, ok := t.Underlying().(*types.Pointer)
+		if !ok {
+			return false
+		}
+		st, ok := p.Elem().Underlying().(*types.Struct)
+		if !ok {
+			return false
+		}
+		for i := 0; i < st.NumFields(); i++ {
+			if st.Field(i).Name() == "Endorsement" && isEndPtr(st.Field(i).Type()) {
+				return true
+			}
+		}
+		return false
+	}
+	pinLoad := func(v ssa.Value) bool {
+		u, ok := v.(*ssa.UnOp)
+		if !ok || u.Op != token.MUL {
+			return false
+		}
+		fa, ok := u.X.(*ssa.FieldAddr)
+		return ok && flow.FieldName(fa) == "Endorsement" && hasPinField(fa.X.Type())
+	}
+	readsPin := func(g *ssa.Function) bool {
+		for _, b := range g.Blocks {
+			for _, in := range b.Instrs {
+				if v, ok := in.(ssa.Value); ok && pinLoad(v) {
+					return true
+				}
+			}
+		}
+		return false
+	}
+	// a foreign endorsement is produced here
+	produces := func(in ssa.Instruction) bool {
+		switch x := in.(type) {
+		case *ssa.Alloc:
+			return namedIs(x.Type(), epbPkg, "VMLaunchEndorsement") && x.Heap
+		case *ssa.Call:
+			g := x.Call.StaticCallee()
+			if g == nil {
+				return false
+			}
+			if verifyEnd != nil && g == verifyEnd {
+				return true
+			}
+			if flow.IsProtoGetter(g) {
+				return false
+			}
+			res := g.Signature.Results()
+			return res.Len() >= 1 && isEndPtr(res.At(0).Type()) && !strings.HasPrefix(g.Name(), "Clone")
+		}
+		return false
+	}
+	// dominated by "the pinned endorsement is nil"
+	underNil := func(b *ssa.BasicBlock) bool {
+		for _, cf := range dominatingConds(b) {
+			bo, ok := cf.Cond.(*ssa.BinOp)
+			if !ok || (bo.Op != token.EQL && bo.Op != token.NEQ) || !isNilK(bo.Y) {
+				continue
+			}
+			if pinLoad(bo.X) && (bo.Op == token.EQL) == cf.Val {
+				return true
+			}
+		}
+		return false
+	}
+	n := 0
+	for _, f := range c.P.RepoFunctions() {
+		rel := load.RelPkg(f)
+		if (rel != "gcetcbendorsement" && rel != "verify") || c.isTestFunc(f) || f.Blocks == nil {
+			continue
+		}
+		// entry: a function that itself consults the pinned endorsement (whatever its shape: exported function,
+		// closure, method of a validator record that holds the options)
+		if !readsPin(f) {
+			continue
+		}
+		region := unexportedRegion(f)
+		n++
+		// helpers that produce a foreign endorsement somewhere not under the nil test (transitively)
+		inRegion := map[*ssa.Function]bool{}
+		for _, g := range region {
+			inRegion[g] = true
+		}
+		exposed := map[*ssa.Function]token.Pos{}
+		for round := 0; round < 4; round++ {
+			for _, g := range region {
+				if _, done := exposed[g]; done || g == f {
+					continue
+				}
+				for _, b := range g.Blocks {
+					for _, in := range b.Instrs {
+						bad := produces(in)
+						if call, ok := in.(*ssa.Call); ok {
+							if h := call.Call.StaticCallee(); h != nil && inRegion[h] {
+								_, bad = exposed[h] // a helper of the region is judged by what it does
+							}
+						}
+						if bad && !underNil(b) {
+							if _, done := exposed[g]; !done {
+								exposed[g] = in.Pos()
+							}
+						}
+					}
+				}
+			}
+		}
+		bad := ""
+		var at token.Pos
+		for _, b := range f.Blocks {
+			for _, in := range b.Instrs {
+				site := produces(in)
+				what := "an endorsement is produced here"
+				if call, ok := in.(*ssa.Call); ok {
+					if h := call.Call.StaticCallee(); h != nil && inRegion[h] && h != f {
+						site = false
+						if p, ex := exposed[h]; ex {
+							site = true
+							what = "helper " + h.Name() + " produces an endorsement at " + c.pos(p)
+						}
+					}
+				}
+				if site && !underNil(b) && bad == "" {
+					bad, at = what, in.Pos()
+				}
+			}
+		}
+		name := load.FuncName(f) + ":the caller's endorsement is the reference"
+		if bad != "" {
+			c.S.Bad("R9", name, c.pos(at), "the options can name the endorsement to check against, but "+bad+" on a path where that field was not found nil: an endorsement taken from the (host-supplied) attestation or fetched by measurement can displace the one the caller pinned, and a measurement listed only there is accepted")
+		} else {
+			c.S.OK("R9", name, c.pos(f.Pos()), "other endorsements are produced only where the options' Endorsement is nil", true)
+		}
+	}
+	c.S.Floor("R9", "validators that consult an Endorsement field of their options", 3, n)
 }
